@@ -402,11 +402,100 @@ func RunC05(t *testing.T, registry map[int]lexer.Definition, dataFile string) {
 				break
 			}
 		}
+		// several live lexers of the definition, on different inputs
+		for at := 0; !failed && at+1 < len(d.InputHex); at += 4 {
+			var ins []string
+			for _, h := range d.InputHex[at:min(at+4, len(d.InputHex))] {
+				raw, _ := hex.DecodeString(h)
+				ins = append(ins, string(raw))
+			}
+			r.Count("interleaved_lexer_groups")
+			if m := interleaved(gen, ins); m != "" {
+				fail(d, d.InputHex[at], m+"\n"+d.RS.String())
+			}
+		}
 	}
 	r.Flush()
 	if failed {
 		t.FailNow()
 	}
+}
+
+// interleaved drains several lexers of one generated definition in turns and out of step (lexer i takes i%3+1 tokens
+// per turn) and compares each stream with what the same generated lexer yields alone: lexers of one definition
+// must not share mutable state. It returns a description of the first difference.
+func interleaved(gen lexer.Definition, ins []string) string {
+	type stream struct {
+		toks []lexer.Token
+		err  error
+	}
+	alone := make([]lexOut, len(ins))
+	for i, in := range ins {
+		alone[i] = drain(gen, in, 0)
+		if alone[i].hung || alone[i].panicMsg != "" {
+			return "" // reported by the per-input comparison
+		}
+	}
+	msg := ""
+	done := make(chan struct{})
+	go func() {
+		defer close(done)
+		defer func() {
+			if r := recover(); r != nil {
+				msg = fmt.Sprintf("lexers drained in turns panicked: %v", r)
+			}
+		}()
+		ls := make([]lexer.Lexer, len(ins))
+		got := make([]stream, len(ins))
+		fin := make([]bool, len(ins))
+		for i, in := range ins {
+			var err error
+			if sd, ok := gen.(lexer.StringDefinition); ok {
+				ls[i], err = sd.LexString("f", in)
+			} else {
+				ls[i], err = gen.Lex("f", strings.NewReader(in))
+			}
+			if err != nil {
+				got[i].err, fin[i] = err, true
+			}
+		}
+		for live := 1; live > 0; {
+			live = 0
+			for i, l := range ls {
+				for k := 0; k <= i%3 && !fin[i]; k++ {
+					tk, err := l.Next()
+					if err != nil {
+						got[i].err, fin[i] = err, true
+						break
+					}
+					got[i].toks = append(got[i].toks, tk)
+					if tk.EOF() || len(got[i].toks) > len(ins[i])+4 {
+						fin[i] = true
+					}
+				}
+				if !fin[i] {
+					live++
+				}
+			}
+		}
+		for i := range ins {
+			same := len(got[i].toks) == len(alone[i].toks) && fmt.Sprint(got[i].err) == fmt.Sprint(alone[i].err)
+			for j := 0; same && j < len(got[i].toks); j++ {
+				same = got[i].toks[j] == alone[i].toks[j]
+			}
+			if !same {
+				msg = fmt.Sprintf("%d lexers of one generated definition were alive and drained in turns; on input %q the lexer yields %s err=%v, alone it yields %s err=%v",
+					len(ins), ins[i], fmtToks(gen, got[i].toks), got[i].err, fmtToks(gen, alone[i].toks), alone[i].err)
+				return
+			}
+		}
+	}()
+	select {
+	case <-done:
+	case <-time.After(20 * time.Second):
+		return "lexers drained in turns did not finish within 20s"
+	}
+	return msg
 }
 
 func fmtToks(def lexer.Definition, ts []lexer.Token) string {
